@@ -43,8 +43,21 @@ func scenTransfer(seed xferSeed, dev int, orderCost bool) *simScenario {
 	}
 }
 
+// overlapping requests: a second TransferLeadership while the first is pending (given targets only: no map-order
+// dependent choice), with loss of the timeout-now request / its reply and the transfer timer
+func scenTransferOverlap(dev int) *simScenario {
+	sc := scenTransfer(xferSeed{"overlap", 3, []uint64{1, 2, 3}, nil, []string{"T:1", "run"}, []string{"transfer:2", "transfer:3"}}, dev, false)
+	sc.Menu = simMenu{OrderCost: true, Timeouts: true, MaxTerm: 3, Drops: true, Admin: []string{"transfer:2", "transfer:3"}, MaxAdmin: 2}
+	sc.Name += "-delaybounded"
+	sc.Crashes = 0
+	return sc
+}
+
 func transferScenarios(tier string) []*simScenario {
-	var out []*simScenario
+	out := []*simScenario{scenTransferOverlap(3)}
+	if tier == "thorough" {
+		out[0].MaxDev = 4
+	}
 	for _, s := range xferSeeds {
 		if tier == "thorough" {
 			out = append(out, scenTransfer(s, 3, false), scenTransfer(s, 4, true))
@@ -59,6 +72,7 @@ func init() {
 	for _, sc := range transferScenarios("quick") {
 		simScenarios[sc.Name] = sc
 	}
+	simScenarios["transfer-overlap-db"] = scenTransferOverlap(3)
 	c16 := &simCheckSpec{Prop: "C16", Oracles: []string{"transfer", "leader"},
 		Scenarios: transferScenarios,
 		Budget: func(tier string) time.Duration {
